@@ -190,6 +190,33 @@ def tree_digest(root: Path):
     return files
 
 
+ODE_FILES = ("src/naunet_fex.cpp", "src/naunet_jac.cpp", "src/naunet_ode.cpp", "src/naunet_fex.cu", "src/naunet_jac.cu")
+
+
+def semantic_tree(root: Path, method: str):
+    """like tree_digest, but the right-hand-side / Jacobian files are reduced to what they compute (exact
+    polynomials per slot, sparse layout), because a network written out and read back may list the factors
+    of a product in another order"""
+    from ..ctext.odetext import read_ode
+    from ..ctext import poly as P
+
+    out = tree_digest(root)
+    files = {rel: (root / rel).read_text() for rel in ODE_FILES + ("include/naunet_macros.h",) if (root / rel).exists()}
+    try:
+        ot = read_ode(files, method)
+        sem = {
+            "ydot": {str(k): P.show(v) for k, v in sorted(ot.ydot.items(), key=lambda kv: str(kv[0]))},
+            "jac": {str(k): P.show(v) for k, v in sorted(ot.jac.items(), key=lambda kv: str(kv[0]))},
+            "rowptrs": ot.rowptrs, "colvals": ot.colvals,
+        }
+        for rel in ODE_FILES:
+            out.pop(rel, None)
+        out["<ode>"] = hashlib.sha256(json.dumps(sem, sort_keys=True, default=str).encode()).hexdigest()[:16]
+    except Exception as e:  # unreadable text is C01/C03's business; here fall back to the bytes
+        out["<ode>"] = f"unread:{type(e).__name__}"
+    return out
+
+
 def write_inputs(proj: Path):
     proj.mkdir(parents=True, exist_ok=True)
     (proj / "net.kida").write_text(
@@ -321,6 +348,159 @@ def run_cfg(arg):
         shutil.rmtree(work, ignore_errors=True)
 
 
+
+# ---- export path: Network (API) -> export -> TOML -> `naunet render` ---------------------------
+EXPORT_ALPHABET = {
+    "elements": [[], ["e", "H", "He", "C", "O"]],
+    "pseudo_elements": [[], ["CR", "CRP", "Photon"]],
+    "allowed": [[], ["C", "CH", "H", "C2"], ["C", "CH", "H", "C2", "CO", "<S>CO", "<G>0", "<G>"]],
+    "required": [[], ["He"], ["He", "e-"], ["H", "e-", "H+"]],
+    "symbols": [("GRAIN", "#", "@"), ("DUST", "#", "@"), ("GRAIN", "G", "@"), ("GRAIN", "#", "B")],
+    "grain_model": ["", "hh93", "rr07"],
+    "ice": [False, True],
+    "binding": [{}, {"CO": 1234.0}],
+    "yield": [{}, {"CO": 0.0025}],
+    "cooling": [[], ["CIC_HI"], ["CIC_HI", "RC_HII"]],
+    "shielding": [{}, {"CO": "V09Table"}, {"H2": "L96Table", "CO": "VB88Table"}],
+    "rate_modifier": [{}, {4894: "0.0"}, {4894: "1e-10*Tgas", 6599: "0.0"}],
+    "ode_modifier": [{}, {"H": {"factors": ["-2.0*f"], "reactants": [["C", "CH"]]}}],
+    "solver": [("cvode", "cpu", "dense"), ("cvode", "cpu", "sparse"), ("odeint", "cpu", "rosenbrock4"), ("cvode", "gpu", "cusparse")],
+}
+EXPORT_BASE = {k: v[0] for k, v in EXPORT_ALPHABET.items()}
+EXPORT_INTERACTING = ["allowed", "required", "symbols", "grain_model", "ice", "binding", "solver"]
+
+
+def export_configs(tier):
+    out, seen = [], set()
+
+    def add(d, why):
+        if d["cooling"] and not {"H", "e-", "H+"} <= set(d["required"]):
+            d = dict(d, required=list(d["required"]) + [x for x in ("H", "e-", "H+") if x not in d["required"]])
+        if (d["binding"] or d["yield"]) and not d["ice"]:
+            d = dict(d, ice=True)
+        if d["pseudo_elements"] and not d["elements"]:
+            d = dict(d, elements=EXPORT_ALPHABET["elements"][1])
+        if d["ice"] and not d["grain_model"]:
+            d = dict(d, grain_model="hh93")
+        if d["ice"] and d["allowed"] and not any("CO" in a for a in d["allowed"]):
+            return
+        key = json.dumps(d, sort_keys=True, default=str)
+        if key not in seen:
+            seen.add(key)
+            out.append((d, why))
+
+    add(dict(EXPORT_BASE), "base")
+    for k, vals in EXPORT_ALPHABET.items():
+        for v in vals:
+            add(dict(EXPORT_BASE, **{k: v}), f"single:{k}")
+    pool = EXPORT_INTERACTING if tier == "quick" else list(EXPORT_ALPHABET)
+    for a, b in itertools.combinations(pool, 2):
+        for va in EXPORT_ALPHABET[a]:
+            for vb in EXPORT_ALPHABET[b]:
+                add(dict(EXPORT_BASE, **{a: va, b: vb}), f"pair:{a}+{b}")
+    return out
+
+
+def run_export_cfg(arg):
+    d, why, workroot = arg
+    from ..harness.cli import run_command
+    from ..harness.isolate import fork_call
+    from ..harness.render import quiet
+    import logging
+    import tomlkit
+
+    logging.disable(logging.CRITICAL)
+    case = {"export": d, "why": why}
+    opt = why.split(":", 1)[1] if ":" in why else why
+    viols = []
+    work = Path(tempfile.mkdtemp(dir=workroot))
+    try:
+        src = work / "in"
+        write_inputs(src)
+        grain, surf, bulk = d["symbols"]
+        kw = {"grain_symbol": grain, "surface_prefix": surf, "bulk_prefix": bulk}
+        name = "exp"
+
+        def build_and_export():
+            import os
+            from naunet.network import Network
+            from naunet.species import Species
+            from naunet.reactions.reaction import Reaction
+            from naunet.reactiontype import ReactionType
+            from naunet.chemistrydata import update_binding_energy, update_photon_yield
+
+            try:
+                with quiet():
+                    if d["elements"] or d["pseudo_elements"]:
+                        Species.set_known_elements(list(d["elements"]))
+                        Species.set_known_pseudoelements(list(d["pseudo_elements"]))
+                    if d["binding"]:
+                        update_binding_energy({Species(surf + k, **kw).name: v for k, v in d["binding"].items()})
+                    if d["yield"]:
+                        update_photon_yield({Species(surf + k, **kw).name: v for k, v in d["yield"].items()})
+                    net = Network(
+                        filelist=[str(src / "net.kida")], fileformats=["kida"], elements=list(d["elements"]), pseudo_elements=list(d["pseudo_elements"]),
+                        allowed_species=[a.replace("<S>", surf).replace("<G>", grain) for a in d["allowed"]],
+                        required_species=list(d["required"]), species_kwargs=kw, grain_model=d["grain_model"], cooling=list(d["cooling"]),
+                        shielding=dict(d["shielding"]), rate_modifier=dict(d["rate_modifier"]), ode_modifier=json.loads(json.dumps(d["ode_modifier"])),
+                    )
+                    if d["ice"]:
+                        gco = lambda: Species(surf + "CO", **kw)
+                        second = ReactionType.GRAIN_DESORB_THERMAL if d["grain_model"].startswith("hh93") else ReactionType.GRAIN_DESORB_PHOTON
+                        net.add_reaction(Reaction([Species("CO", **kw)], [gco()], 10.0, 41000.0, 1.0, 0.0, 0.0, ReactionType.GRAIN_FREEZE, 9001))
+                        if d["grain_model"].startswith("hh93"):
+                            net.add_reaction(Reaction([gco()], [Species("CO", **kw)], 10.0, 41000.0, 1.0, 0.0, 0.0, second, 9002))
+                    net.export(name, solver=d["solver"][0], method=d["solver"][2], device=d["solver"][1], prefix=work, overwrite=True)
+                    summary = {
+                        "species": [s.name for s in net.species],
+                        "nreac": len(net.reaction_list),
+                        "allowed": list(net.allowed_species),
+                        "required": list(net.required_species),
+                        "eb": {s.name: s.eb for s in net.species if s.is_surface},
+                        "yield": {s.name: s.photon_yield for s in net.species if s.is_surface},
+                    }
+                return ("ok", summary)
+            except Exception as e:
+                return ("exc", f"{type(e).__name__}: {e}"[:300])
+
+        kind, val = fork_call(build_and_export)
+        if kind == "exc":
+            return 1, viols, "api-refuses:" + val[:80] + ":" + why  # the description itself is refused through the API: nothing to round-trip
+        proj = work / name
+        before = semantic_tree(proj, d["solver"][2])
+        t = toml_description(tomlkit.loads((proj / "naunet_config.toml").read_text()))
+        req = {
+            "name": name,
+            "elements": list(d["elements"]), "pseudo_elements": list(d["pseudo_elements"]),
+            "symbol": {"grain": grain, "surface": surf, "bulk": bulk},
+            "allowed": val["allowed"], "required": val["required"],
+            "binding_energy": {k: float(v) for k, v in val["eb"].items()}, "photon_yield": {k: float(v) for k, v in val["yield"].items()},
+            "files": ["reactions.naunet"], "formats": ["naunet"], "grain_model": d["grain_model"], "heating": [], "cooling": list(d["cooling"]),
+            "shielding": dict(d["shielding"]), "rate_modifier": {str(k): str(v) for k, v in d["rate_modifier"].items()},
+            "ode_modifier": json.loads(json.dumps(d["ode_modifier"])), "solver": tuple(d["solver"]),
+        }
+        bad = [k for k in req if t[k] != req[k]]
+        if bad:
+            viols.append((f"C20:export-toml-field:{'+'.join(bad)}:{opt}", f"export {why}: network holds { {k: req[k] for k in bad} } but the exported naunet_config.toml holds { {k: t[k] for k in bad} }"[:700], case))
+
+        def cli():
+            st, o, err, exc = run_command("render", "--force", proj, timeout=240)
+            return st, err[:300], (f"{type(exc).__name__}: {exc}"[:300] if exc is not None else None)
+
+        st, err, exc = fork_call(cli)
+        if exc is not None:
+            feat = "custom-surface-symbol-ice" if d["ice"] and surf != "#" else "custom-grain-symbol-ice" if d["ice"] and grain != "GRAIN" and "GRAIN" in exc else opt
+            viols.append((f"C20:export-rerender-raises:{feat}:{exc.split(':')[0]}", f"export {why}: `naunet render` inside the exported project raises {exc}", case))
+            return 1, viols, "rerender-raises"
+        after = semantic_tree(proj, d["solver"][2])
+        if before != after:
+            diff = sorted(k for k in set(before) | set(after) if before.get(k) != after.get(k))
+            viols.append((f"C20:export-sources-differ:{opt}", f"export {why}: files {diff[:6]} change when the exported project is re-rendered from its own configuration", case))
+        return 1, viols, "equal" if before == after else "differ"
+    finally:
+        shutil.rmtree(work, ignore_errors=True)
+
+
 # ---- bundled examples through ExampleCommand ---------------------------------------------------
 def run_example(arg):
     idx, name, workroot = arg
@@ -397,6 +577,14 @@ def run(ctx):
             n += k
             outcomes[outcome] = outcomes.get(outcome, 0) + 1
             ctx.absorb(viols)
+        ecfgs = export_configs(ctx.tier)
+        eoutcomes = {}
+        nexp = 0
+        for k, viols, outcome in pool.imap_unordered(run_export_cfg, [(d, w, str(workroot)) for d, w in ecfgs]):
+            nexp += k
+            outcome = outcome.split(":")[0]
+            eoutcomes[outcome] = eoutcomes.get(outcome, 0) + 1
+            ctx.absorb(viols)
         if ctx.tier == "quick":
             ex = [(i, e) for i, e in enumerate(EXAMPLES) if e in ("empty/dense", "minimal/dense", "minimal/rosenbrock4", "primordial/sparse")]
         else:
@@ -408,16 +596,19 @@ def run(ctx):
     ctx.assumptions += [
         "reference reading of the option grammar: lists are comma separated and stripped; tables are key:value (replacement, shielding) or key=value (binding, yield), comma separated, split at the first separator; rate modifier 'index:expression'; ode modifier 'species:factor,[dep dep]' separated by ';'",
         "the equivalent API network = the requested description applied through public helpers only (Network(...) arguments, chemistrydata.update_binding_energy / update_photon_yield, Species._replacement) and rendered by TemplateLoader in a sibling fresh process; trees include/ src/ python/ must be byte-identical (no date lives in them)",
+        "export path: the exported reactions.naunet lists reactants in the writer's canonical order, so the re-rendered right-hand side may list the factors of a product in another order; those files are compared through the C reader (exact polynomial per ydot/Jacobian slot, CSR layout), every other file byte for byte; descriptions that the API itself refuses are counted, not judged",
         "illegal solver/method pairs must be refused; the ism example needs a network file that is not shipped and is not run; the example command's final test-template step raises offline (baseline always-fail) and is tolerated after configuration and sources exist",
     ]
     return {
-        "evaluations": n + nex,
+        "evaluations": n + nex + nexp,
         "distinct_nontrivial": len(cfgs),
-        "rule": "every init option alone over its value alphabet around a base configuration, all value pairs of the interacting options (elements, replacement, allowed species, binding, surface prefix, files) in quick, all value pairs of all options in thorough, each through `naunet init --render` in a fresh process; TOML compared field by field with the requested description, sources compared with the API rendering; bundled examples through `naunet example`",
+        "rule": "every init option alone over its value alphabet around a base configuration, all value pairs of the interacting options (elements, replacement, allowed species, binding, surface prefix, files) in quick, all value pairs of all options in thorough, each through `naunet init --render` in a fresh process; TOML compared field by field with the requested description, sources compared with the API rendering; bundled examples through `naunet example`; export path: API networks over (element lists, allowed/required species, symbols, dust model, ice species, binding/yield, cooling, shielding, modifiers, solver) singly and pairwise -> Network.export -> TOML fields vs the network -> `naunet render --force` inside the exported project -> same files (right-hand side and Jacobian compared as exact polynomials per slot)",
         "samples": [c for c, w in cfgs[:: max(1, len(cfgs) // 4)][:4]],
         "configurations": len(cfgs),
         "examples_run": nex,
         "outcomes": outcomes,
+        "export_descriptions": len(ecfgs),
+        "export_outcomes": eoutcomes,
         "exhaustive": True,
     }
 
@@ -425,7 +616,9 @@ def run(ctx):
 def replay(ctx, case):
     workroot = ctx.scratch / "c20"
     workroot.mkdir(parents=True, exist_ok=True)
-    if "example" in case:
+    if "export" in case:
+        k, v, o = run_export_cfg((case["export"], case["why"], str(workroot)))
+    elif "example" in case:
         k, v = run_example((case["select"], case["example"], str(workroot)))
     else:
         k, v, o = run_cfg((case["cfg"], case["why"], str(workroot)))
